@@ -557,3 +557,230 @@ Lemma foreign_error_payload_witness :
     = [(0%nat, [1]); (1%nat, [2]); (2%nat, [3]); (3%nat, [4])] /\
   b_fired (run fe_hist) = [(0%nat, true); (1%nat, true)].
 Proof. vm_compute. split; reflexivity. Qed.
+
+(* ---- "only after every batch containing part of it has finished", in items -------------------------------- *)
+Lemma occ_ge_in x l : In x l -> 1 <= occ x l.
+Proof.
+  induction l as [|y l IH]; intros H; [destruct H|]. rewrite occ_cons. pose proof (occ_nonneg x l). pose proof (ind_nonneg (dref_eqb x y)).
+  destruct H as [->|H]; [rewrite dref_eqb_refl; cbn [ind]; lia|specialize (IH H); lia].
+Qed.
+
+Lemma fly_tokens_in {R} x (f : nat * R * list dref) l : In f l -> occ x (snd f) <= fly_tokens x l.
+Proof.
+  unfold fly_tokens. induction l as [|g l IH]; intros H; [destruct H|]. cbn [sumZf].
+  assert (0 <= sumZf (fun f0 => occ x (snd f0)) l) by (apply sumZf_nonneg; intros; apply occ_nonneg).
+  pose proof (occ_nonneg x (snd g)). destruct H as [->|H]; [lia|specialize (IH H); lia].
+Qed.
+
+(* a done list of an in-flight batch that is attached to request i keeps i "referred to" *)
+Lemma attached_refers {R} n (st : @bstate R) b r ds i :
+  Inv n st -> In (b, r, ds) (b_flying st) -> attached (b_refs st) ds i = true -> refers st i.
+Proof.
+  intros [G1 [G2 [G3 G4]]] Hin Ha. unfold attached in Ha. apply existsb_exists in Ha. destruct Ha as [d [Hd Hh]].
+  assert (Htok : 1 <= tokens st d).
+  { unfold tokens. pose proof (fly_tokens_in d _ _ Hin) as H1. cbn [snd] in H1. pose proof (occ_ge_in _ _ Hd). pose proof (occ_nonneg d (cur_dones st)). lia. }
+  unfold hits in Hh. destruct d as [j|k]; cbn [tgt] in Hh.
+  - apply Nat.eqb_eq in Hh. subst j. left. lia.
+  - destruct (nth_error (b_refs st) k) as [c|] eqn:Ec; [|discriminate].
+    destruct (rc_target c) as [j|] eqn:Et; [|discriminate]. apply Nat.eqb_eq in Hh. subst j.
+    destruct (G1 k c Ec) as [_ [Hc _]]. right.
+    pose proof (live_one i _ _ _ Ec) as L. rewrite (livef_live _ _ Et) in L by lia. lia.
+Qed.
+
+Lemma done_only_after_items_l w sz max min (Hmax : 0 <= max) (Hmm : max = 0 \/ min <= max) es :
+  wf_events w sz es ->
+  let '(st, n, rs) := krun w sz max min es in
+  forall i, 0 < fcount i (b_fired st) ->
+    forall b r ds x, In (b, r, ds) (b_flying st) -> In x (ritems r) -> owner rs i x ->
+      (forall j, owner rs j x -> j = i) -> False.
+Proof.
+  intros Hwf. pose proof (holds_attached_l w sz max min Hmax Hmm es Hwf) as HA.
+  pose proof (krun_fst w sz max min es) as Hs.
+  pose proof (inv_run (msplitC w sz max) (sizeofC w sz) min es) as HI.
+  pose proof (done_only_after_batches_l (msplitC w sz max) (sizeofC w sz) min es) as HD.
+  rewrite <- Hs in HI, HD. destruct (krun w sz max min es) as [[st n] rs]. cbn [fst snd] in *.
+  intros i Hf b r ds x Hin Hx Ho Hu. apply (HD i Hf). eapply attached_refers; eauto.
+Qed.
+
+(* ---------------------------------------------------------------------------------------- *)
+(* conservation through the batcher: for any sequence of requests                             *)
+(* ---------------------------------------------------------------------------------------- *)
+Definition cur_items (st : @bstate req) : list item := match b_cur st with Some (r, _) => ritems r | None => [] end.
+Definition fly_items_l (l : list (nat * req * list dref)) : list item := concat (map (fun f => ritems (snd (fst f))) l).
+Definition fly_items (st : @bstate req) : list item := fly_items_l (b_flying st).
+
+Lemma merge_split_items_perm w sz max a b out :
+  wf_p w sz (rp a) -> wf_opt w sz b -> merge_split w sz max a b = Some out ->
+  Permutation (items_reqs out) (ritems a ++ match b with Some b' => ritems b' | None => [] end).
+Proof.
+  intros Ha Hb H. unfold merge_split in H.
+  assert (Hm : items_of (rp (merged w sz a b)) = ritems a ++ match b with Some b' => ritems b' | None => [] end).
+  { destruct b; cbn [merged rp]; [apply items_of_app|unfold ritems; now rewrite app_nil_r]. }
+  assert (Hw : wf_p w sz (rp (merged w sz a b))).
+  { destruct b; simpl; [|exact Ha]. apply Forall_app. split; assumption. }
+  destruct (max =? 0).
+  - inversion H; subst. unfold items_reqs; cbn [map concat]. rewrite app_nil_r. unfold ritems at 1. now rewrite Hm.
+  - pose proof (split_loop_items _ _ _ _ _ _ _ _ Hw H) as Hp. cbn [items_reqs map concat app] in Hp. now rewrite <- Hm.
+Qed.
+
+Lemma fly_items_start_flush (st : @bstate req) r ds : fly_items (start_flush st r ds) = fly_items st ++ ritems r.
+Proof. unfold fly_items, fly_items_l, start_flush; cbn [b_flying]. rewrite map_app, concat_app. cbn. now rewrite app_nil_r. Qed.
+
+Lemma fly_items_start_flushes : forall rs (st : @bstate req) ds,
+  fly_items (start_flushes st rs ds) = fly_items st ++ items_reqs rs /\ b_cur (start_flushes st rs ds) = b_cur st.
+Proof.
+  induction rs as [|r rs IH]; intros st ds; cbn [start_flushes].
+  - unfold items_reqs; cbn. now rewrite app_nil_r.
+  - destruct (IH (start_flush st r ds) ds) as [A B]. rewrite A, B, fly_items_start_flush. split; [|reflexivity].
+    unfold items_reqs; cbn [map concat]. now rewrite app_assoc.
+Qed.
+
+Lemma fly_req_take_perm b : forall l r ds ds' fl,
+  fly_req b l = Some (r, ds) -> take_flying b l = Some (ds', fl) -> Permutation (fly_items_l l) (ritems r ++ fly_items_l fl).
+Proof.
+  induction l as [|[[b' r'] d'] l IH]; intros r ds ds' fl H1 H2; cbn [fly_req take_flying] in *; [discriminate|].
+  destruct (Nat.eqb b b').
+  - inversion H1; inversion H2; subst. reflexivity.
+  - destruct (take_flying b l) as [[x t']|] eqn:E; [|discriminate]. inversion H2; subst.
+    unfold fly_items_l in *. cbn [map concat fst snd]. rewrite (IH _ _ _ _ H1 eq_refl).
+    rewrite !app_assoc. apply Permutation_app_tail. apply Permutation_app_comm.
+Qed.
+
+Lemma fly_req_none_take b : forall l, fly_req b l = None -> take_flying b l = None.
+Proof.
+  induction l as [|[[b' r'] d'] l IH]; intros H; cbn [fly_req take_flying] in *; [reflexivity|].
+  destruct (Nat.eqb b b'); [discriminate|]. now rewrite (IH H).
+Qed.
+
+Definition item_dec : forall a b : item, {a = b} + {a <> b}.
+Proof. decide equality; apply Z.eq_dec. Defined.
+
+Lemma items_reqs_cons r l : items_reqs (r :: l) = ritems r ++ items_reqs l.
+Proof. reflexivity. Qed.
+Lemma items_reqs_snoc l r : items_reqs (l ++ [r]) = items_reqs l ++ ritems r.
+Proof. rewrite items_reqs_app. unfold items_reqs at 2. cbn [map concat]. now rewrite app_nil_r. Qed.
+Lemma items_reqs_nil : items_reqs [] = [].
+Proof. reflexivity. Qed.
+
+Section PayloadConservation.
+  Variable w : item -> Z.
+  Variable sz : sizer.
+  Variable max min : Z.
+  Hypothesis max_nonneg : 0 <= max.
+  Hypothesis min_le_max : max = 0 \/ min <= max.
+  Notation bst := (@bstate req).
+  Notation MS := (msplitC w sz max).
+  Notation SO := (sizeofC w sz).
+
+  (* the run with two ghosts: the consumed requests and the items of the batches whose export has returned *)
+  Definition cstep (x : bst * nat * list req * list item) (e : @bevent req) : bst * nat * list req * list item :=
+    let '(st, n, rs, F) := x in
+    (bstep MS SO min (st, n) e,
+     match e with EConsume r => rs ++ [r] | _ => rs end,
+     match e with
+     | EResult b _ => match fly_req b (b_flying st) with Some (r, _) => F ++ ritems r | None => F end
+     | _ => F
+     end).
+  Definition crun (es : list (@bevent req)) := fold_left cstep es (b_init, O, [], []).
+
+  Definition Cons (st : bst) (rs : list req) (F : list item) : Prop :=
+    Permutation (cur_items st ++ fly_items st ++ F) (items_reqs rs).
+
+  Lemma Cons_consume rs n (st : bst) r F : wf_p w sz (rp r) -> K w sz max rs n st -> Cons st rs F ->
+    Cons (consume MS SO min st n r) (rs ++ [r]) F.
+  Proof.
+    intros Hr [_ [Kc _]] HC. unfold Cons in *. apply (Permutation_count_occ item_dec). intros x.
+    pose proof (proj1 (Permutation_count_occ item_dec _ _) HC x) as HCx. clear HC.
+    rewrite items_reqs_snoc. rewrite !count_occ_app in *.
+    unfold consume. destruct (b_cur st) as [[c cds]|] eqn:Ecur.
+    - destruct Kc as [Hwc _]. unfold msplitC.
+      destruct (merge_split_total w sz max c (Some r)) as [out Em]. rewrite Em.
+      pose proof (proj1 (Permutation_count_occ item_dec _ _) (merge_split_items_perm w sz max c (Some r) out Hwc Hr Em) x) as Hp.
+      rewrite count_occ_app in Hp. unfold cur_items in HCx. rewrite Ecur in HCx.
+      destruct out as [|r0 rest].
+      { unfold fire, cur_items, fly_items in *; cbn [on_done_all on_done b_cur b_flying] in *. rewrite Ecur.
+        rewrite items_reqs_nil in Hp. cbn [count_occ] in Hp. lia. }
+      destruct (wrap_done st n (S (length rest))) as [st1 d] eqn:Ew.
+      destruct (wrap_done_attached _ _ _ _ _ Ew) as [_ [_ [Hc1 Hfy1]]].
+      set (ff := ((0 <? length rest)%nat || negb (SO r0 <? min))%bool).
+      set (st2 := with_cur st1 (if ff then None else Some (r0, cds ++ [d]))).
+      destruct (park_last SO min st2 rest d) as [rest' st3] eqn:Ep.
+      set (st4 := if ff then start_flush st3 r0 (cds ++ [d]) else st3).
+      destruct (fly_items_start_flushes rest' st4 [d]) as [Hf5 Hc5].
+      unfold cur_items at 1. rewrite Hc5, Hf5, count_occ_app.
+      rewrite items_reqs_cons, count_occ_app in Hp.
+      assert (Hfy2 : fly_items st2 = fly_items st) by (unfold fly_items, st2; cbn [with_cur b_flying]; now rewrite Hfy1).
+      destruct (park_last_shape w sz min _ _ _ _ _ Ep) as [[-> ->]|[la [Hla [-> _]]]].
+      + unfold st4. destruct ff eqn:Eff.
+        * cbn [start_flush b_cur]. unfold st2 at 1. cbn [with_cur b_cur]. rewrite fly_items_start_flush, Hfy2, count_occ_app. cbn [count_occ]. lia.
+        * unfold st2 at 1. cbn [with_cur b_cur]. rewrite Hfy2.
+          unfold ff in Eff. apply orb_false_iff in Eff. destruct Eff as [El _]. apply Nat.ltb_ge in El.
+          destruct rest; [|cbn in El; lia]. rewrite items_reqs_nil in *. cbn [count_occ] in *. lia.
+      + assert (Hfy3 : fly_items (with_cur st2 (Some (la, [d]))) = fly_items st) by (unfold fly_items; cbn [with_cur b_flying]; exact Hfy2).
+        rewrite Hla, items_reqs_snoc, count_occ_app in Hp.
+        unfold st4. destruct ff eqn:Eff.
+        * cbn [start_flush b_cur with_cur]. rewrite fly_items_start_flush, Hfy3, count_occ_app. lia.
+        * unfold ff in Eff. apply orb_false_iff in Eff. destruct Eff as [El _]. apply Nat.ltb_ge in El.
+          rewrite Hla, app_length in El. cbn in El. lia.
+    - unfold msplitC. destruct (merge_split_total w sz max r None) as [out Em]. rewrite Em.
+      pose proof (proj1 (Permutation_count_occ item_dec _ _) (merge_split_items_perm w sz max r None out Hr I Em) x) as Hp.
+      rewrite app_nil_r in Hp. unfold cur_items in HCx. rewrite Ecur in HCx. cbn [count_occ] in HCx.
+      destruct out as [|r0 rest].
+      { unfold fire, cur_items, fly_items in *; cbn [on_done_all on_done b_cur b_flying] in *. rewrite Ecur.
+        rewrite items_reqs_nil in Hp. cbn [count_occ] in *. lia. }
+      destruct (wrap_done st n (length (r0 :: rest))) as [st1 d] eqn:Ew.
+      destruct (wrap_done_attached _ _ _ _ _ Ew) as [_ [_ [Hc1 Hfy1]]].
+      destruct (park_last SO min st1 (r0 :: rest) d) as [rs' st2] eqn:Ep.
+      destruct (fly_items_start_flushes rs' st2 [d]) as [Hf3 Hc3].
+      unfold cur_items at 1. rewrite Hc3, Hf3, count_occ_app.
+      assert (Hfy : fly_items st1 = fly_items st) by (unfold fly_items; now rewrite Hfy1).
+      destruct (park_last_shape w sz min _ _ _ _ _ Ep) as [[-> ->]|[la [Hla [-> _]]]].
+      + rewrite Hc1, Ecur, Hfy. cbn [count_occ]. lia.
+      + cbn [with_cur b_cur]. assert (Hfy' : fly_items (with_cur st1 (Some (la, [d]))) = fly_items st) by (unfold fly_items; cbn [with_cur b_flying]; now rewrite Hfy1).
+        rewrite Hfy'. rewrite Hla, items_reqs_snoc, count_occ_app in Hp. lia.
+  Qed.
+
+  Lemma Cons_flush_current (st : bst) rs F : Cons st rs F -> Cons (flush_current st) rs F.
+  Proof.
+    unfold Cons, flush_current. destruct (b_cur st) as [[r ds]|] eqn:Ec; [|auto]. intros H.
+    apply (Permutation_count_occ item_dec). intros x.
+    pose proof (proj1 (Permutation_count_occ item_dec _ _) H x) as Hx.
+    unfold cur_items in *. rewrite Ec in Hx. cbn [start_flush with_cur b_cur]. rewrite fly_items_start_flush.
+    unfold fly_items at 1. cbn [with_cur b_flying]. fold (fly_items st). rewrite !count_occ_app in *. cbn [count_occ]. lia.
+  Qed.
+
+  Lemma Cons_flush_result (st : bst) rs F b err : Cons st rs F ->
+    Cons (flush_result st b err) rs (match fly_req b (b_flying st) with Some (r, _) => F ++ ritems r | None => F end).
+  Proof.
+    unfold Cons, flush_result. intros H. destruct (fly_req b (b_flying st)) as [[r ds]|] eqn:Ef.
+    - destruct (fly_req_take _ _ _ _ Ef) as [_ [fl Et]]. rewrite Et.
+      pose proof (fly_req_take_perm _ _ _ _ _ _ Ef Et) as Hp.
+      unfold fire. cbn [b_refs b_fired]. destruct (on_done_all ds err (b_refs st) (b_fired st)) as [r' f'].
+      unfold cur_items, fly_items in *. cbn [b_cur b_flying].
+      rewrite <- H. apply (Permutation_count_occ item_dec). intros x.
+      pose proof (proj1 (Permutation_count_occ item_dec _ _) Hp x) as Hx. rewrite !count_occ_app in *. lia.
+    - rewrite (fly_req_none_take _ _ Ef). exact H.
+  Qed.
+
+  Lemma Cons_run es : wf_events w sz es -> let '(st, n, rs, F) := crun es in K w sz max rs n st /\ Cons st rs F.
+  Proof.
+    intros Hwf. unfold crun. rewrite <- fold_left_rev_right.
+    assert (Hwf' : forall r, In (EConsume r) (rev es) -> wf_p w sz (rp r)) by (intros r Hr; apply Hwf; now apply in_rev).
+    clear Hwf. induction (rev es) as [|e l IH]; cbn [fold_right].
+    - split; [split; [reflexivity|split; [exact I|constructor]]|]. unfold Cons, cur_items, fly_items, fly_items_l, items_reqs; cbn. constructor.
+    - assert (Hl : forall r, In (EConsume r) l -> wf_p w sz (rp r)) by (intros r Hr; apply Hwf'; now right).
+      specialize (IH Hl). destruct (fold_right (fun y x => cstep x y) (b_init, O, [], []) l) as [[[st n] rs] F].
+      destruct IH as [HK HC]. destruct e; cbn [cstep bstep].
+      + assert (Hr : wf_p w sz (rp r)) by (apply Hwf'; now left).
+        split; [apply K_consume; auto|apply Cons_consume; auto].
+      + split; [exact (K_flush_current w sz max min min_le_max _ _ _ HK)|apply Cons_flush_current; exact HC].
+      + split; [exact (K_flush_result w sz max _ _ _ _ _ HK)|apply Cons_flush_result; exact HC].
+      + split; [exact (K_flush_current w sz max min min_le_max _ _ _ HK)|apply Cons_flush_current; exact HC].
+  Qed.
+
+  (* for ANY sequence of requests and any interleaving of timer flushes, export results and shutdown: the items parked
+     in the current batch, in flight, and already exported are together exactly the items that entered *)
+  Lemma batcher_conserves_l es : wf_events w sz es ->
+    let '(st, n, rs, F) := crun es in Permutation (cur_items st ++ fly_items st ++ F) (items_reqs rs).
+  Proof. intros H. pose proof (Cons_run es H) as G. destruct (crun es) as [[[st n] rs] F]. exact (proj2 G). Qed.
+End PayloadConservation.
